@@ -72,7 +72,8 @@ pub fn write_data(writer: usize, op: usize, len: usize) -> Vec<u8> {
 }
 
 struct Actor {
-    w: StreamWriter<MockWriter>,
+    /// None until the task's first operation when writers are created lazily
+    w: Option<StreamWriter<MockWriter>>,
     ty: u8,
     ops: Vec<WOp>,
     next: usize,
@@ -124,16 +125,27 @@ pub fn test(c: &Case) -> TestResult {
     let mut req = Request::new(sp, MockReader(world.clone()), MockWriter(world.clone()));
     vensure!(req.is_writeable(), "c09-not-writeable", "Responder request is not writeable after its preamble");
 
+    // One case in three creates each writer only when its task first runs (a handler that looks
+    // at its input before it asks for an output stream): a reply may then be half written while
+    // no writer exists yet.
+    let lazy = (c.order.len() + c.id as usize) % 3 == 0;
     let mut actors: Vec<Actor> = Vec::new();
     for spec in &c.writers {
-        let (w, ty) = match spec.clone_of.and_then(|k| actors.get(k as usize % actors.len().max(1))) {
-            Some(a) if !actors.is_empty() => (a.w.clone(), a.ty),
-            _ => {
-                let ty = if spec.stderr { wire::T_STDERR } else { wire::T_STDOUT };
-                (req.output_stream(rt(ty)), ty)
-            },
+        let src = spec.clone_of.filter(|_| !actors.is_empty()).map(|k| k as usize % actors.len());
+        let ty = match src {
+            Some(k) => actors[k].ty,
+            None => if spec.stderr { wire::T_STDERR } else { wire::T_STDOUT },
         };
-        vensure!(u8::from(w.stream()) == ty, "c10-writer-stream", "writer reports stream {:?}, expected {ty}", w.stream());
+        let w = if lazy {
+            None
+        } else {
+            let w = match src.and_then(|k| actors[k].w.as_ref()) {
+                Some(w0) => w0.clone(),
+                None => req.output_stream(rt(ty)),
+            };
+            vensure!(u8::from(w.stream()) == ty, "c10-writer-stream", "writer reports stream {:?}, expected {ty}", w.stream());
+            Some(w)
+        };
         actors.push(Actor { w, ty, ops: spec.ops.clone(), next: 0, flag: FlagWaker::new(true), cur: None, announced: 0 });
     }
     let n_writers = actors.len();
@@ -217,6 +229,11 @@ pub fn test(c: &Case) -> TestResult {
                 },
             }
         } else {
+            if actors[k].w.is_none() {
+                let w = req.output_stream(rt(actors[k].ty));
+                vensure!(u8::from(w.stream()) == actors[k].ty, "c10-writer-stream", "writer reports stream {:?}, expected {}", w.stream(), actors[k].ty);
+                actors[k].w = Some(w);
+            }
             let a = &mut actors[k];
             a.flag.take();
             let waker = Waker::from(a.flag.clone());
@@ -236,7 +253,7 @@ pub fn test(c: &Case) -> TestResult {
                     }
                     let announced = a.announced;
                     let data = a.cur.as_ref().unwrap();
-                    match Pin::new(&mut a.w).poll_write(&mut cx, data) {
+                    match Pin::new(a.w.as_mut().unwrap()).poll_write(&mut cx, data) {
                         Poll::Ready(Ok(n)) => {
                             // "n capped at 65535 per call": a write may accept fewer bytes than
                             // offered (like any AsyncWrite), never more than the buffer it was
@@ -263,7 +280,7 @@ pub fn test(c: &Case) -> TestResult {
                         },
                     }
                 },
-                WOp::Flush => match Pin::new(&mut a.w).poll_flush(&mut cx) {
+                WOp::Flush => match Pin::new(a.w.as_mut().unwrap()).poll_flush(&mut cx) {
                     Poll::Ready(Ok(())) => {
                         a.next += 1;
                         std::task::Wake::wake_by_ref(&a.flag);
@@ -378,6 +395,7 @@ pub fn test(c: &Case) -> TestResult {
         .label_if(c.vectored, "vectored")
         .label_if(reader_cancelled, "read-abandoned")
         .label_if(closed, "closed-at-end")
+        .label_if(lazy, "writers-created-lazily")
         .label_if(completed.iter().any(|c| c.3.len() == 65535), "65535-byte-record")
         .label_if(c.writers.iter().any(|w| w.clone_of.is_some()), "cloned-writer"))
 }
